@@ -10,7 +10,7 @@ def run(tier):
     ck = C.Check("C02", tier)
     failed = ck.proofs()
     n_g, n_r = (45, 10) if tier == "quick" else (2500, 40)
-    res = P.run_family(ck, n_g, n_r, p_err=0.0, want_hist=False)
+    res = P.run_family(ck, n_g, n_r, p_err=0.0, want_hist=True)
     ties = pc.tie_violations(ck, res, want_kinds=("parse",))
     stats = {"grammars": len(res), "lr1": 0, "verdicts": 0, "accepted": 0, "rejected": 0, "max_len": 0, "fuel_or_panic": 0}
     nontrivial = set()
@@ -44,6 +44,21 @@ def run(tier):
             if (v == "ok") != sentence:
                 ck.violation("parser verdict `%s` but the token sequence %s is %sa sentence of the grammar" % (v, c["w"], "" if sentence else "not "),
                              {"bnf": r["text"], "op": c["line"], "impl": c["impl"], "earley": c["earley"]})
+    # the same verdicts on a parser object that has been used before (failed or succeeded earlier)
+    reused = 0
+    for r in res:
+        if not pc.is_lr1(r) or r["g"]["err"]:
+            continue
+        verdict_of = {tuple(c["w"]): c["earley"].startswith("yes") for c in r["cases"] if c["kind"] == "parse"}
+        for h in r["hists"]:
+            for w, f, part in zip(h["hist"], h["fails"], h["impl"].split(" || ")):
+                if f != 0 or tuple(w) not in verdict_of:
+                    continue
+                reused += 1
+                if (part.split()[0] == "ok") != verdict_of[tuple(w)]:
+                    ck.violation("on a parser object used before, tokens %s give `%s` but the sequence is %sa sentence (history %s)" % (w, part.split(" | ")[0], "" if verdict_of[tuple(w)] else "not ", h["hist"]),
+                                 {"bnf": r["text"], "op": h["line"], "impl": h["impl"]})
+    stats["verdicts_on_reused_parser"] = reused
     ck.proof_failures(failed, "C02 theorems")
     ck.cov.update({"evaluations": stats["verdicts"], "distinct_nontrivial": len(nontrivial),
                    "rule": "random grammars (1-4 non-terminals, <=3 alternatives of <=4 symbols, empty alternatives, every kind of recursion, string literals, "
